@@ -54,14 +54,16 @@ func runC05(k *kernel.K) {
 		{"secure.test", "secure.test:443", "secure.test:443", "secure.test:80"},
 		{"10.7.7.7", "10.7.7.7:443", "10.7.7.7:443", "10.7.7.7:80"},
 		{"fd00::7", "[fd00::7]:443", "[fd00::7]:443", "[fd00::7]:80"},
-	}[w.Pick([]int{5, 2, 1})]
+		{"secure.test", "secure.test:8443", "secure.test:8443", "secure.test:80"},
+	}[w.Pick([]int{5, 2, 1, 2})]
 	listenerKind := []string{"plain", "shaped", "transparent"}[w.Pick([]int{4, 2, 2})]
 	if listenerKind == "transparent" {
 		// No CONNECT, hence no fallback host: the client must name the host through SNI.
 		tg = tgt{"secure.test", "secure.test:443", "secure.test:443", "secure.test:80"}
 	}
 	inner := "tls"
-	if listenerKind != "transparent" && w.Chance(1, 6) {
+	if listenerKind != "transparent" && w.Chance(1, 6) && strings.HasSuffix(tg.authority, ":443") {
+		// (with another port the named host:port is the TLS origin's; no cleartext twin exists there)
 		inner = "plain_http"
 	}
 	sni := true
@@ -184,6 +186,10 @@ func runC05(k *kernel.K) {
 		r := &ReqSpec{ID: id, Method: []string{"GET", "POST"}[w.Pick([]int{3, 1})], Host: tg.host, Path: fmt.Sprintf("/x%d/s", id)}
 		if strings.Contains(tg.host, ":") {
 			r.Host = "[" + tg.host + "]"
+		}
+		if _, port, _ := net.SplitHostPort(tg.authority); port != "443" {
+			// a client names a non-default port wherever it names the host
+			r.Host += ":" + port
 		}
 		switch form {
 		case "abs_https":
@@ -383,8 +389,9 @@ func sameHost(got, authority string) bool {
 	if got == authority {
 		return true
 	}
-	h, _, err := net.SplitHostPort(authority)
-	return err == nil && (got == h || got == "["+h+"]")
+	h, port, err := net.SplitHostPort(authority)
+	// without a port the https default applies, which names the same endpoint only for :443
+	return err == nil && port == "443" && (got == h || got == "["+h+"]")
 }
 
 func c05Cleanup(k *kernel.K, n *simnet.Net, cl *TLSClient) {
